@@ -270,7 +270,13 @@ func runPortfolio(dir, name, query string, getvals []string, timeoutS int, all b
 	}
 	if decided != nil {
 		if decided.Status == "sat" {
-			decided.Model = parseGetValue(decided.Output)
+			decided.Model = map[string]string{}
+			vals := parseGetValueList(decided.Output)
+			for i, v := range vals {
+				if i < len(getvals) {
+					decided.Model[getvals[i]] = v
+				}
+			}
 		}
 		return *decided
 	}
@@ -326,6 +332,48 @@ func sanitize(s string) string {
 		r = r[:150]
 	}
 	return r
+}
+
+// parseGetValueList returns the values of a get-value answer in order.
+func parseGetValueList(o string) []string {
+	var out []string
+	i := strings.Index(o, "((")
+	if i < 0 {
+		return out
+	}
+	s := o[i:]
+	depth := 0
+	start := -1
+	for j := 0; j < len(s); j++ {
+		switch s[j] {
+		case '|':
+			k := strings.Index(s[j+1:], "|")
+			if k >= 0 {
+				j += k + 1
+			}
+		case '(':
+			depth++
+			if depth == 2 {
+				start = j
+			}
+		case ')':
+			if depth == 2 && start >= 0 {
+				pair := strings.TrimSpace(s[start+1 : j])
+				k := splitFirstSexp(pair)
+				if k > 0 {
+					out = append(out, strings.TrimSpace(pair[k:]))
+				} else {
+					out = append(out, "")
+				}
+				start = -1
+			}
+			depth--
+			if depth == 0 {
+				return out
+			}
+		}
+	}
+	return out
 }
 
 // parseGetValue parses "((x 1) (y (- 2)) ...)" into a map.
